@@ -1,5 +1,5 @@
 #!/usr/bin/env python3
-"""Replay input for the repaired defect `fixed: property=C15 8d409a9` (sequence header wraps at 16 bits).
+"""Replay input for the repaired defect `fixed: property=C15 5952bf5` (sequence header wraps at 16 bits).
 
     python3 notes/c15_header_wrap.py > hw.mml ; mmlc -f mds hw.mml
 
